@@ -145,7 +145,8 @@ class HGen:
         return m, ne
 
 
-def gen_case(rng, hist_len=None, may=False, **kw):
+def gen_case(rng, hist_len=None, may=False, p_enum=0.0, **kw):
+    use_enum = rng.random() < p_enum if p_enum else False
     g = HGen(rng, **kw)
     m, ne = g.machine()
     fg = flat.Gen(rng)
@@ -179,7 +180,10 @@ def gen_case(rng, hist_len=None, may=False, **kw):
         e = rng.randrange(ne) if rng.random() < 0.93 else ne + 2
         k = 0 if not may else rng.choice([0, 1, 1])
         hist.append((k, e, 100 + i))
-    return dict(machine=m, env=env, model=0, init=init, history=hist, cls='HierarchicalMachine')
+    out = dict(machine=m, env=env, model=0, init=init, history=hist, cls='HierarchicalMachine')
+    if use_enum:
+        out['enum'] = 1     # states named by Enum members (member names reused on every level)
+    return out
 
 
 # ------------------------------------------------------------------ implementation side
@@ -221,7 +225,58 @@ def state_forest(model, attr='state'):
     return forest_of_value(getattr(model, attr))
 
 
+class EnumNames(object):
+    """case['enum']: every state is named by an Enum member; each group of siblings is one Enum class and the member
+    names are the sibling indexes ('n0', 'n1', ...), so that the same member NAME occurs on every level and in every
+    branch (only the Enum classes differ).  Maps id paths <-> members."""
+
+    def __init__(self, machine):
+        import enum
+        self.member = {}      # tuple(id path) -> Enum member
+        self.path_of = {}     # Enum member -> id path
+
+        def group(defs, prefix):
+            cls = enum.Enum('E' + ''.join('_%d' % n for n in prefix), {'n%d' % i: i for i in range(len(defs))})
+            for i, d in enumerate(defs):
+                p = prefix + (d['name'],)
+                mem = cls['n%d' % i]
+                self.member[p] = mem
+                self.path_of[mem] = list(p)
+                if d['children']:
+                    group(d['children'], p)
+        group(machine['states'], ())
+
+    def label_path(self, path):
+        return SEP.join(self.member[tuple(path[:i + 1])].name for i in range(len(path)))
+
+    def forest(self, v):
+        paths = []
+
+        def fl(x):
+            if isinstance(x, (list, tuple)):
+                for y in x:
+                    fl(y)
+            else:
+                paths.append(self.path_of.get(x, [999]))
+        fl(v)
+        root = []
+        for p in paths:
+            cur = root
+            for n in p:
+                for node in cur:
+                    if node[0] == n:
+                        cur = node[1]
+                        break
+                else:
+                    node = [n, []]
+                    cur.append(node)
+                    cur = node[1]
+        return root
+
+
 def build_hsm(case, world, cls, extra_kwargs=None, model=None):
+    if case.get('enum'):
+        return build_hsm_enum(case, world, cls, extra_kwargs, model)
     m = case['machine']
     R = world.recorder
 
@@ -261,6 +316,62 @@ def build_hsm(case, world, cls, extra_kwargs=None, model=None):
     return machine, model
 
 
+def build_hsm_enum(case, world, cls, extra_kwargs=None, model=None):
+    """the same machine with Enum-named states; transitions name their source / destination alternately by Enum
+    member and by the string path of member names"""
+    m = case['machine']
+    R = world.recorder
+    names = EnumNames(m)
+    world.state_of = lambda mod: names.forest(mod.state)
+    world.enum_names = names
+    cnt = [0]
+
+    def ref(scope, rel):
+        """a state reference inside `scope` (id path): Enum member or string path, alternating"""
+        cnt[0] += 1
+        full = tuple(scope) + tuple(rel)
+        if cnt[0] % 2:
+            return names.member[full]
+        return SEP.join(names.member[full[:i + 1]].name for i in range(len(scope), len(full)))
+
+    def tdict(e, t, scope):
+        return dict(trigger='e%d' % e, source=ref(scope, t['src']), dest=None if t['dst'] is None else ref(scope, t['dst']),
+                    conditions=[R('cond', c) for c, tg in t['conds'] if tg],
+                    unless=[R('unless', c) for c, tg in t['conds'] if not tg],
+                    before=[R('before', c) for c in t['before']], after=[R('after', c) for c in t['after']],
+                    prepare=[R('prepare', c) for c in t['prepare']])
+
+    def sdict(d, prefix):
+        p = prefix + (d['name'],)
+        out = dict(name=names.member[p], on_enter=[R('enter', c) for c in d['enter']],
+                   on_exit=[R('exit', c) for c in d['exit']], on_final=[R('on_final', c) for c in d['onfinal']],
+                   final=d['final'], ignore_invalid_triggers=d['ignore'])
+        if d['children']:
+            out['children'] = [sdict(c, p) for c in d['children']]
+        if d['initial']:
+            ini = [names.member[p + (i,)] for i in d['initial']]
+            out['initial'] = ini[0] if len(ini) == 1 else ini
+        if d['events']:
+            out['transitions'] = [tdict(e, t, p) for e, ts in d['events'] for t in ts]
+        return out
+    model = model if model is not None else Model()
+    kw = dict(model=model, states=[sdict(d, ()) for d in m['states']], initial=names.member[tuple(case['init'])],
+              auto_transitions=False, send_event=m['send'], ignore_invalid_triggers=m['ignore'],
+              prepare_event=[R('prepare_event', c) for c in m['prepare_event']],
+              before_state_change=[R('before_sc', c) for c in m['before_sc']],
+              after_state_change=[R('after_sc', c) for c in m['after_sc']],
+              finalize_event=[R('finalize', c) for c in m['finalize']],
+              on_exception=[R('on_exception', c) for c in m['on_exception']],
+              on_final=[R('on_final', c) for c in m['on_final']])
+    if extra_kwargs:
+        kw.update(extra_kwargs)
+    machine = cls(**kw)
+    for e, ts in m['events']:
+        for t in ts:
+            machine.add_transition(**tdict(e, t, ()))
+    return machine, model
+
+
 def impl_hsm(case):
     world = World(case['env'], case['machine']['send'])
     world.state_of = state_forest
@@ -269,7 +380,7 @@ def impl_hsm(case):
     machine, model = build_hsm(case, world, flat.get_class(cname), extra_kwargs=flat.class_kwargs(cname))
     world.model_ids[id(model)] = case.get('model', 0)
     world.current_model = model
-    init_cfg = state_forest(model)
+    init_cfg = world.state_of(model)
     out = []
     for k, e, a in case['history']:
         tok = Token(a)
@@ -283,7 +394,7 @@ def impl_hsm(case):
             res = [0, bool(r)]
         except BaseException as ex:  # noqa
             res = [1, classify_exc(ex)]
-        out.append([world.items, res, state_forest(model)])
+        out.append([world.items, res, world.state_of(model)])
     return [1, init_cfg, out]
 
 
@@ -402,7 +513,7 @@ def impl_hsm_async(case):
     world.model_ids[id(model)] = case.get('model', 0)
     world.current_model = model
     holder['model'] = model
-    init_cfg = state_forest(model)
+    init_cfg = world.state_of(model)
     out = []
 
     async def run():
@@ -418,7 +529,7 @@ def impl_hsm_async(case):
                 res = [0, bool(r)]
             except BaseException as ex:  # noqa
                 res = [1, classify_exc(ex)]
-            out.append([world.items, res, state_forest(model)])
+            out.append([world.items, res, world.state_of(model)])
     asyncio.run(run())
     return [1, init_cfg, out]
 
@@ -430,7 +541,7 @@ def async_stream(tag, seed, n, **genkw):
     cases = []
     for i in range(n):
         rng = random.Random('%s-%d-%d' % (tag, seed, i))
-        c = trim_lists(gen_case(rng, **genkw))
+        c = trim_lists(gen_case(rng, p_enum=0.15, **genkw))
         c['history'] = [(0, e, a) for (k, e, a) in c['history']]
         c['env'] = dict(default=c['env']['default'], bypos={p: r for p, r in c['env']['bypos'].items() if r[1] is None},
                         bycb={k: r for k, r in c['env']['bycb'].items() if r[1] is None})
@@ -452,7 +563,7 @@ def async_nested_stream(tag, seed, n, **genkw):
     cases, twins = [], []
     for i in range(n):
         rng = random.Random('%s-%d-%d' % (tag, seed, i))
-        c = trim_lists(gen_case(rng, **genkw))
+        c = trim_lists(gen_case(rng, p_enum=0.15, **genkw))
         m = c['machine']
         for key in ('prepare_event', 'before_sc', 'after_sc', 'finalize', 'on_exception'):
             m[key] = []
